@@ -63,6 +63,13 @@ theorem C08_layout_Statement_false : ¬ C08_layout_Statement := by
   revert this
   decide
 
+/-- … and so does the type-level statement (`struct __attribute__((packed)) { char a; _Alignas(8) int b; }`) -/
+theorem C08_types_Statement_false : ¬ C08_types_Statement := by
+  intro h
+  have := h (.struct true none (.cons ⟨0, none, true⟩ (.prim .char) (.cons ⟨8, none, true⟩ (.prim .int) .nil))) (by decide)
+  revert this
+  decide
+
 /-! ### C08-huge-struct-overflow (outside the `Int` model: 32-bit wrap-around of `bits`) -/
 
 /-- two's-complement wrap of a C `int` -/
